@@ -623,11 +623,15 @@ func TestCheck(t *testing.T) {
 	var fails atomic.Int64
 	checkClient(r, &fails)
 	checkKfake(t, r, &fails)
+	checkClientRewind(r)
+	checkClientE2E(r)
 	r.Set("exhaustive", false)
 	r.Finish("exploration",
 		"client: every pair (s,n) with s within 2^10 of 0 or 2^31-1 (plus a few mid values) and n in 1..2^10 or within 2^10 of 2^31-1, plus seeded random pairs (uniform / near-top / landing near the wrap / random magnitudes), each compared with (s+n) mod 2^31. kfake: one evaluation = one judged produce response or log-end check inside a scenario (new producer id; first batch at s with n1 records; wrong sequences; correct next batch; exact retries; third batch); scenarios from a grid of distances 1..1024 below 2^31 x batch sizes around that distance, plus seeded random. Non-trivial: s+n (kfake: s+n1+n2+n3) >= 2^31-2^10, i.e. the arithmetic is at or past the wrap; distinct by (s class, n / landing class, scenario kind)",
 		"kfake accepts any first sequence for a producer id it has not seen on the partition (as Kafka does); this is how a sequence near 2^31 is reached without producing 2^31 records. If kfake refuses the first batch the scenario is inconclusive",
 		"hand-built record batches are honest: NumRecords records are really present, so batch sizes on the kfake side are limited to ~2000 records; larger n is covered only on the client side",
+		"client rewind: one evaluation = one call of the real rewindDrainTo / resetBatchDrainIdx (verif hook VerifRewindDrainTo) on a partition buffer of 1-6 drained batches of 1-1200 records whose first sequence is uniform or within 3000 of 2^31, compared with (s + records of the batches that stay drained) mod 2^31 and the expected drain index; non-trivial = s plus the staying records is past the wrap",
+		"client end to end: one evaluation = one seeded idempotent-producer scenario (real kgo client into kfake, partitions starting 1..160 records below 2^31 through the verif hook VerifSetStartSequence, half of the scenarios with swallowed produce responses / connection kills / retriable errors / leader moves) whose partition logs are read back with raw Fetch: per (producer id, epoch) each record's sequence is the previous one plus 1 modulo 2^31, acked records are in the log exactly once at the promised offset and in produce order, failed records are absent, and a fault-free scenario fails no record; non-trivial = some (producer id, epoch) of some partition log holds sequences on both sides of the wrap and a record was acked; distinct by (brokers, partitions, max in-flight, fault-free, kill buckets, leader moves, any failed)",
 		"'any other sequence' is sampled: the 2^31-1-modulus value, next+1, next-1, 0 and 2^31-1 (skipping values that equal the correct next sequence or that would be an exact retry of an accepted batch)",
 	)
 }
